@@ -54,7 +54,9 @@ NO_GZ = {"application/json", "image/jpeg", "image/png"}
 MIMES = ["application/octet-stream", "application/octet-stream", "application/json",
          "image/jpeg", "image/png", "text/plain"]
 NAMES = ["info", "a", "dir/b", "mesh/1:0", "mesh/frag.one", "x.json", "deep/er/name",
-         "..dots", "a..b", "sp ace", "transform.json", "dir/c:d:e", "UPPER", "dir/sub/./q"]
+         "..dots", "a..b", "sp ace", "transform.json", "dir/c:d:e", "UPPER", "dir/sub/./q",
+         "m\u00fcsh/\u00fc\u00df.json", "pct/a%20b%2F", "dir/~tilde", "semi;colon&amp",
+         "x" * 180]
 CONFIGS = [{"flat": f, "gzip": g, "compresslevel": lv}
            for f in (False, True) for g in (False, True) for lv in (1, 9)]
 
